@@ -114,6 +114,7 @@ structure MState where
   dueFull : List (Nat × String) := []    -- peers that are due a full wantlist, and why (refresh expired / connection closed mid-send)
   conns : List (Nat × List Nat) := []    -- per peer: the connections the swarm has reported established and not yet closed
   newGets : List (Nat × Nat) := []       -- (query, cid) of the gets since the last poll
+  missedSince : List Nat := []           -- CIDs whose blockstore lookup completed with a miss since the last poll
   outstanding : List (Nat × Nat) := []   -- (peer, connection): handed a wantlist whose outcome (Ready / Failed from that connection, or its close) is not known yet
 
 def rm (l ks : List Nat) : List Nat := l.filter (· ∉ ks)
@@ -283,6 +284,10 @@ def stepMon (st : MState) (op : String) (out : String) : MState × List Viol :=
             match lookup st.calls seq with
             | some k => ({ st with avail := (k, d.toNat?.getD 0) :: st.avail }, [])
             | none => (st, [])
+          | ["miss"] =>
+            match lookup st.calls seq with
+            | some k => ({ st with missedSince := k :: st.missedSince }, [])
+            | none => (st, [])
           | ["putok"] =>
             match lookup st.puts seq with
             | some bs => ({ st with avail := bs ++ st.avail,
@@ -437,6 +442,11 @@ def stepMon (st : MState) (op : String) (out : String) : MState × List Viol :=
             if waiting.length > started then
               some ("C03", s!"{waiting.length} new get(s) for cid {k} (queries {waiting.map (·.1)}) but only {started} blockstore lookup(s) for it were started by the next poll: a block present in the local blockstore would not be answered from it")
             else none
+          -- C03: a CID enters the wantlist only because a local lookup for it missed: a lookup that fails yields an error
+          -- event, one that hits a response — neither turns into a request to the network
+          let vmiss := (snap.want.filter (· ∉ prev.want)).filterMap fun (k : Nat) =>
+            if st.missedSince.contains k then none
+            else some ("C03", s!"cid {k} entered the wantlist although no blockstore lookup for it missed since the last poll: a failed (or successful) local lookup was turned into a request to the network instead of an event")
           -- C01 / C03: a response carries bytes that the client gate accepted for the query's own CID, or
           -- that the node's blockstore returned for it
           let vresp := evs.flatMap fun (q, d) =>
@@ -523,8 +533,8 @@ def stepMon (st : MState) (op : String) (out : String) : MState × List Viol :=
               some ("C06", s!"cid {k} was stored by the node's own fetch while peer {p} waited for it, yet after the next poll the peer still waits and nothing was sent")
             else none
           ({ st with events := events, calls := calls ++ st.calls, puts := puts ++ st.puts, ghosts := gs, refWl := refWl,
-                     owed := if snap.stasks == 0 then [] else owed, stored := [], newGets := [] },
-           v03 ++ v01 ++ vsend ++ vdup ++ vout ++ v07 ++ v06 ++ vowed ++ vstored ++ vlive ++ vresp ++ vdue ++ vdue15 ++ vget)
+                     owed := if snap.stasks == 0 then [] else owed, stored := [], newGets := [], missedSince := [] },
+           v03 ++ v01 ++ vsend ++ vdup ++ vout ++ v07 ++ v06 ++ vowed ++ vstored ++ vlive ++ vresp ++ vdue ++ vdue15 ++ vget ++ vmiss)
         | _ => (st, [])
       let st := { st with prev := snap }
       (st, v ++ checkState st snap)
